@@ -76,6 +76,28 @@ func compareRows(what string, exp [][]ExpCol, got [][]SnapCol) (string, string) 
 
 // compareTx compares one delivery with its expectation (labels excluded).
 func compareTx(exp *ExpTx, got *SnapTx) (rule, detail string) {
+	opt := false
+	for i := range exp.Events {
+		opt = opt || exp.Events[i].Optional
+	}
+	if !opt {
+		return compareTxExact(exp, got)
+	}
+	// optional changes (comment-led statements): all of them or none
+	if r, _ := compareTxExact(exp, got); r == "" {
+		return "", ""
+	}
+	without := *exp
+	without.Events = nil
+	for i := range exp.Events {
+		if !exp.Events[i].Optional {
+			without.Events = append(without.Events, exp.Events[i])
+		}
+	}
+	return compareTxExact(&without, got)
+}
+
+func compareTxExact(exp *ExpTx, got *SnapTx) (rule, detail string) {
 	if exp.Timestamp != got.Timestamp {
 		return "tx-timestamp", fmt.Sprintf("expected %d got %d", exp.Timestamp, got.Timestamp)
 	}
